@@ -592,6 +592,59 @@ func checkPruneClearsFlag(p *Program, r *Report, rule string) {
 
 func checkAtomicQuery(p *Program, r *Report, rule string, acquires func(*ssa.Function) bool, exempt map[string]string) {
 	n := 0
+	// multi[f]: f enters two critical sections on one path, itself or through a function it calls
+	sectionsOf := func(fn *ssa.Function) []ssa.Instruction {
+		var out []ssa.Instruction
+		for _, b := range fn.Blocks {
+			for _, in := range b.Instrs {
+				c, ok := in.(*ssa.Call)
+				if !ok {
+					continue
+				}
+				if f := calleeFunc(c.Common()); f != nil && f.Pkg() != nil && f.Pkg().Path() == "sync" && (f.Name() == "Lock" || f.Name() == "RLock") {
+					out = append(out, in)
+					continue
+				}
+				for _, callee := range p.Callees(c) {
+					if p.owns(callee) && acquires(callee) {
+						out = append(out, in)
+						break
+					}
+				}
+			}
+		}
+		return out
+	}
+	multi := map[*ssa.Function]ssa.Instruction{}
+	for changed := true; changed; {
+		changed = false
+		for _, fn := range p.Funcs {
+			if multi[fn] != nil || fn.Blocks == nil {
+				continue
+			}
+			secs := sectionsOf(fn)
+			for i := range secs {
+				for j := range secs {
+					if i != j && canReach(secs[i], secs[j]) && multi[fn] == nil {
+						multi[fn] = secs[j]
+						changed = true
+					}
+				}
+			}
+			if multi[fn] != nil {
+				continue
+			}
+			for _, s := range secs {
+				c := s.(*ssa.Call)
+				for _, callee := range p.Callees(c) {
+					if p.owns(callee) && multi[callee] != nil && multi[fn] == nil {
+						multi[fn] = s
+						changed = true
+					}
+				}
+			}
+		}
+	}
 	for _, fn := range p.Funcs {
 		recv := fn.Signature.Recv()
 		if fn.Parent() != nil || recv == nil || !p.localNamed(recv.Type(), "MapPollard") || fn.Object() == nil || !fn.Object().Exported() {
@@ -631,6 +684,10 @@ func checkAtomicQuery(p *Program, r *Report, rule string, acquires func(*ssa.Fun
 					a, b = sections[i], sections[j]
 				}
 			}
+		}
+		if a == nil && multi[fn] != nil {
+			// the second section is inside a function this method calls
+			a, b = multi[fn], multi[fn]
 		}
 		if a != nil {
 			if why, ok := exempt[name]; ok {
